@@ -159,6 +159,31 @@ class C15(SeqProp):
                         if cur[name][-1].tf < end:
                             bad("eom-disable-before-ramp-down" + (":eom-slower-than-channel" if eom.rise_time > ch.rise_time else ""), f"channel {name}: ends at {cur[name][-1].tf}, last EOM pulse ramps down until {end}")
                         break
+        # drift correction of an EOM pulse: the references of its targets move by the pulse's
+        # post-phase-shift minus the phase accumulated at the off-detuning while the channel idled
+        # (from the end of its last real pulse, or the block's start, to the start of this pulse)
+        refs_now = {b: {q: float(r.phase.last_phase) for q, r in d.items()} for b, d in seq._basis_ref.items()}
+        if ok and k == "add_eom" and op.get("correct") and name in cur and name in prev and len(cur[name]) > len(prev[name]):
+            cs = seq._schedule[name]
+            new = cur[name][-1]
+            if isinstance(new.type, Pulse) and cs.eom_blocks:
+                blk = cs.eom_blocks[-1]
+                last_tf = 0
+                for sl in reversed(prev[name]):
+                    if isinstance(sl.type, Pulse) and not cs.is_detuned_delay(sl.type):
+                        last_tf = sl.tf
+                        break
+                drift = -float(blk.detuning_off) * (new.ti - max(int(blk.ti), last_tf)) * 1e-3
+                want = float(op.get("post", 0.0)) - drift
+                basis = cs.channel_obj.basis
+                for q in new.targets:
+                    r0 = st.get("refs", {}).get(basis, {}).get(q)
+                    r1 = refs_now.get(basis, {}).get(q)
+                    if r0 is not None and r1 is not None:
+                        dlt = (r1 - r0 - want) % (2 * math.pi)
+                        if min(dlt, 2 * math.pi - dlt) > 1e-9:
+                            bad("drift-corrected-reference", f"channel {name}, atom {q}: reference moved by {(r1 - r0) % (2 * math.pi)}, post-phase-shift minus drift is {want % (2 * math.pi)}")
+        st["refs"] = refs_now
         st["prev"] = cur
         st["eom_before"] = {n: cs.in_eom_mode() for n, cs in seq._schedule.items()}
         return v
